@@ -38,6 +38,7 @@ func main() {
 	canaryOnly := flag.Bool("canary", false, "run only the canaries")
 	dumpFns := flag.Bool("dump-functions", false, "print the function inventory of -repo (tables/functions.json) and exit")
 	dumpShapes := flag.Bool("dump-shapes", false, "print the result shapes per function of -repo (tables/resultshapes.json) and exit")
+	dumpTS := flag.Bool("dump-typeswitches", false, "print the type-switch arms per function (tables/typeswitches.json) and exit")
 	dumpMemo := flag.Bool("dump-memokeys", false, "print the memo keys per (function, map field) of -repo (tables/memokeys.json) and exit")
 	dumpCond := flag.Bool("dump-condatoms", false, "print the decision inputs per function of -repo (tables/condatoms.json) and exit")
 	flag.Parse()
@@ -48,6 +49,15 @@ func main() {
 			os.Exit(2)
 		}
 		os.Stdout.Write(w.dumpResultShapes())
+		return
+	}
+	if *dumpTS {
+		w, err := loadWorld(*repo)
+		if err != nil {
+			fmt.Fprintln(os.Stderr, err)
+			os.Exit(2)
+		}
+		os.Stdout.Write(w.dumpTypeSwitches())
 		return
 	}
 	if *dumpMemo {
